@@ -20,6 +20,7 @@ import (
 	"github.com/btcsuite/btcd/wire"
 	"github.com/btcsuite/btcutil"
 
+	"github.com/keep-network/keep-core/pkg/bitcoin"
 	"github.com/keep-network/keep-core/pkg/chain"
 	"github.com/keep-network/keep-core/pkg/tbtc"
 
@@ -49,6 +50,41 @@ type input struct {
 	Keys           []string    `json:"keys"`
 	WalletIsRefund bool        `json:"walletIsRefund"`
 	Spends         []spendSpec `json:"spends"`
+	// Utxo is the funding output the deposit is bound to (production deposits always have one);
+	// nil only in the nil-Utxo controls and in replays stored before the field existed.
+	Utxo *utxoSpec `json:"utxo,omitempty"`
+	// Roles = indices into Keys of the wallet and the refund key (default 0 and 1).  With Roles
+	// set, a spend's Key 0 / 1 is the wallet / refund key and Key k >= 2 is Keys[(k-2) % len].
+	Roles []int `json:"roles,omitempty"`
+	// Hist, when set, makes the case a Script() call history (hist.go); the fields above other
+	// than Keys are then unused.
+	Hist *histInput `json:"hist,omitempty"`
+}
+
+// utxoSpec describes a funding output.  Ptr names the *bitcoin.UnspentTransactionOutput OBJECT
+// within one case: equal Ptr = the same pointer, different Ptr with equal Hash/Index = equal
+// outpoints behind different pointers.
+type utxoSpec struct {
+	Hash  string `json:"hash"`
+	Index uint32 `json:"index"`
+	Value int64  `json:"value"`
+	Ptr   int    `json:"ptr"`
+}
+
+func (u *utxoSpec) build() *bitcoin.UnspentTransactionOutput {
+	if u == nil {
+		return nil
+	}
+	var h bitcoin.Hash
+	copy(h[:], mustHex(u.Hash))
+	return &bitcoin.UnspentTransactionOutput{
+		Outpoint: &bitcoin.TransactionOutpoint{TransactionHash: h, OutputIndex: u.Index},
+		Value:    u.Value,
+	}
+}
+
+func genUtxo(r *lib.Rng) *utxoSpec {
+	return &utxoSpec{Hash: hexOf(r, 32), Index: uint32(r.Intn(4)), Value: int64(r.Range(10000, 100000000))}
 }
 
 func mustHex(s string) []byte {
@@ -131,42 +167,121 @@ func asciiCodes(s string) string {
 	return lib.ListN(v)
 }
 
-func run(in input, em *lib.Emitter, id string) {
-	keys := make([]*btcec.PrivateKey, len(in.Keys))
-	for i, k := range in.Keys {
+// roleKeys returns the wallet and the refund private key of the deposit.
+func roleKeys(in input, keys []*btcec.PrivateKey) (w, r *btcec.PrivateKey) {
+	if len(in.Roles) == 2 {
+		return keys[in.Roles[0]%len(keys)], keys[in.Roles[1]%len(keys)]
+	}
+	return keys[0], keys[1]
+}
+
+func spendKey(in input, keys []*btcec.PrivateKey, k int) *btcec.PrivateKey {
+	if len(in.Roles) == 2 {
+		w, r := roleKeys(in, keys)
+		switch {
+		case k == 0:
+			return w
+		case k == 1:
+			return r
+		default:
+			return keys[(k-2)%len(keys)]
+		}
+	}
+	return keys[k%len(keys)]
+}
+
+func parseKeys(ks []string) []*btcec.PrivateKey {
+	keys := make([]*btcec.PrivateKey, len(ks))
+	for i, k := range ks {
 		keys[i], _ = btcec.PrivKeyFromBytes(btcec.S256(), mustHex(k))
 	}
-	var wpkh, rpkh [20]byte
-	copy(wpkh[:], btcutil.Hash160(keys[0].PubKey().SerializeCompressed()))
-	copy(rpkh[:], btcutil.Hash160(keys[1].PubKey().SerializeCompressed()))
+	return keys
+}
+
+func keyHashes(in input, keys []*btcec.PrivateKey) (wpkh, rpkh [20]byte) {
+	w, r := roleKeys(in, keys)
+	copy(wpkh[:], btcutil.Hash160(w.PubKey().SerializeCompressed()))
+	copy(rpkh[:], btcutil.Hash160(r.PubKey().SerializeCompressed()))
 	if in.WalletIsRefund {
 		rpkh = wpkh
 	}
+	return
+}
 
-	dep := &tbtc.Deposit{Depositor: chain.Address(in.Depositor), WalletPublicKeyHash: wpkh, RefundPublicKeyHash: rpkh}
+// setDeposit writes the parameters of [in] into [dep] (every field Script() may read).  An
+// ExtraData array the deposit already owns is overwritten in place when [inPlace] is set (the
+// pointer is then shared with every struct copy taken earlier).
+func setDeposit(dep *tbtc.Deposit, in input, keys []*btcec.PrivateKey, utxo *bitcoin.UnspentTransactionOutput, inPlace bool) {
+	wpkh, rpkh := keyHashes(in, keys)
+	dep.Utxo = utxo
+	dep.Depositor = chain.Address(in.Depositor)
+	dep.WalletPublicKeyHash, dep.RefundPublicKeyHash = wpkh, rpkh
 	copy(dep.BlindingFactor[:], mustHex(in.Blinding))
 	copy(dep.RefundLocktime[:], mustHex(in.Locktime))
 	if in.Extra != nil {
 		var e [32]byte
 		copy(e[:], mustHex(*in.Extra))
-		dep.ExtraData = &e
-	}
-	var script []byte
-	var scriptErr string
-	func() {
-		defer func() {
-			if r := recover(); r != nil {
-				script, scriptErr = nil, fmt.Sprintf("panic: %v", r)
-			}
-		}()
-		s, err := dep.Script()
-		if err != nil {
-			scriptErr = err.Error()
-			return
+		if inPlace && dep.ExtraData != nil {
+			*dep.ExtraData = e
+		} else {
+			dep.ExtraData = &e
 		}
-		script = s
-	}()
+	} else {
+		dep.ExtraData = nil
+	}
+}
 
+// callScript is the one place the driver calls the real Deposit.Script().
+func callScript(dep *tbtc.Deposit) (script []byte, scriptErr string) {
+	defer func() {
+		if r := recover(); r != nil {
+			script, scriptErr = nil, fmt.Sprintf("panic: %v", r)
+		}
+	}()
+	s, err := dep.Script()
+	if err != nil {
+		return nil, err.Error()
+	}
+	if s == nil {
+		return nil, "nil script without error"
+	}
+	return s, ""
+}
+
+func run(in input, em *lib.Emitter, id string) {
+	if in.Hist != nil {
+		runHist(in, em, id)
+		return
+	}
+	keys := parseKeys(in.Keys)
+	dep := &tbtc.Deposit{}
+	setDeposit(dep, in, keys, in.Utxo.build(), false)
+	script, scriptErr := callScript(dep)
+	coq, outs, nAcc, nRej := depCase(in, keys, script, em, id)
+	if script != nil {
+		em.Tally("script-ok")
+	} else {
+		em.Tally("script-error")
+	}
+	if in.Utxo == nil {
+		em.Tally("single-nil-utxo")
+	}
+	kh := sha256.Sum256([]byte(coq))
+	em.Case(lib.Case{
+		ID:         id,
+		Coq:        "(DOne (" + coq + "))",
+		Key:        hex.EncodeToString(kh[:12]),
+		Nontrivial: script != nil && nAcc > 0 && nRej > 0,
+		Sig:        map[string]interface{}{"extra": in.Extra != nil, "scriptOk": script != nil},
+		In:         in,
+		Out:        map[string]interface{}{"script": hex.EncodeToString(script), "scriptError": scriptErr, "spends": outs},
+	})
+}
+
+// depCase runs the spends of [in] against [script] (the script some Script() call returned for
+// the parameters of [in]; nil = error) and renders the dep_case term.
+func depCase(in input, keys []*btcec.PrivateKey, script []byte, em *lib.Emitter, id string) (coq string, outs []interface{}, nAcc, nRej int) {
+	wpkh, rpkh := keyHashes(in, keys)
 	extra := "None"
 	if in.Extra != nil {
 		extra = lib.Some(lib.Bytes(mustHex(*in.Extra)))
@@ -177,11 +292,19 @@ func run(in input, em *lib.Emitter, id string) {
 
 	var h160, s256 table
 	spendTerms := []string{}
-	outs := []interface{}{}
-	nAcc, nRej := 0, 0
+	outs = []interface{}{}
+	spends := in.Spends
 	if script != nil {
-		for si, sp := range in.Spends {
-			key := keys[sp.Key%len(keys)]
+		// a script btcd cannot even tokenise cannot be signed for (the legacy digest parses it):
+		// the case goes out without spends and fails the embedding requirement of the property
+		if _, err := txscript.DisasmString(script); err != nil {
+			spends = nil
+			em.Tally("script-unparsable")
+		}
+	}
+	if script != nil {
+		for si, sp := range spends {
+			key := spendKey(in, keys, sp.Key)
 			pk := key.PubKey().SerializeCompressed()
 			if sp.Uncompressed {
 				pk = key.PubKey().SerializeUncompressed()
@@ -321,9 +444,9 @@ func run(in input, em *lib.Emitter, id string) {
 			outs = append(outs, map[string]interface{}{"spend": si, "accepted": ok, "error": why})
 
 			role := "other"
-			if sp.Key%len(keys) == 0 || (in.WalletIsRefund && sp.Key%len(keys) == 1) {
+			if pkh := btcutil.Hash160(pk); hex.EncodeToString(pkh) == hex.EncodeToString(wpkh[:]) {
 				role = "wallet"
-			} else if sp.Key%len(keys) == 1 {
+			} else if hex.EncodeToString(pkh) == hex.EncodeToString(rpkh[:]) {
 				role = "refund"
 			}
 			tag := role
@@ -340,25 +463,13 @@ func run(in input, em *lib.Emitter, id string) {
 	scriptTerm := "None"
 	if script != nil {
 		scriptTerm = lib.Some(lib.Bytes(script))
-		em.Tally("script-ok")
-	} else {
-		em.Tally("script-error")
 	}
 	if in.Extra != nil {
 		em.Tally("with-extra-data")
 	}
-	coq := fmt.Sprintf("{| dc_in := %s; dc_script := %s; dc_hash160 := %s; dc_sha256 := %s; dc_spends := %s |}",
+	coq = fmt.Sprintf("{| dc_in := %s; dc_script := %s; dc_hash160 := %s; dc_sha256 := %s; dc_spends := %s |}",
 		depIn, scriptTerm, h160.coq(), s256.coq(), lib.List(spendTerms))
-	kh := sha256.Sum256([]byte(coq))
-	em.Case(lib.Case{
-		ID:         id,
-		Coq:        coq,
-		Key:        hex.EncodeToString(kh[:12]),
-		Nontrivial: script != nil && nAcc > 0 && nRej > 0,
-		Sig:        map[string]interface{}{"extra": in.Extra != nil, "scriptOk": script != nil},
-		In:         in,
-		Out:        map[string]interface{}{"script": hex.EncodeToString(script), "scriptError": scriptErr, "spends": outs},
-	})
+	return coq, outs, nAcc, nRej
 }
 
 // ------------------------------------------------------------------ generators
@@ -471,7 +582,10 @@ func genSpend(r *lib.Rng, lock uint32, nKeys int) spendSpec {
 }
 
 func genInput(r *lib.Rng, nSpends int) input {
-	in := input{Depositor: "0x" + hexOf(r, 20), Blinding: hexOf(r, 8), Keys: genKeys(r, 4)}
+	in := input{Depositor: "0x" + hexOf(r, 20), Blinding: hexOf(r, 8), Keys: genKeys(r, 4), Utxo: genUtxo(r)}
+	if r.Chance(1, 12) {
+		in.Utxo = nil // control: a deposit not yet bound to a funding output
+	}
 	if r.Chance(1, 4) {
 		in.Depositor = hexOf(r, 20) // no prefix
 	}
@@ -511,6 +625,8 @@ func main() {
 		r := lib.NewRng(28)
 		for ci, lock := range []uint32{1700000000, 9000000, 800000, 0x80000000} {
 			in := input{Depositor: "0x" + hexOf(r, 20), Blinding: hexOf(r, 8), Keys: genKeys(r, 4), Locktime: le32(lock)}
+			ur := lib.NewRng(2800 + uint64(ci))
+			in.Utxo = genUtxo(ur)
 			if ci%2 == 1 {
 				e := hexOf(r, 32)
 				in.Extra = &e
@@ -536,13 +652,22 @@ func main() {
 			"0x0x" + hexOf(r, 20), "0x" + hexOf(r, 19) + "zz", "0x" + hexOf(r, 19) + "a", hexOf(r, 20),
 			"0x" + fmt.Sprintf("%X", r.Bytes(20)), " 0x" + hexOf(r, 20)} {
 			in := input{Depositor: d, Blinding: hexOf(r, 8), Keys: genKeys(r, 4), Locktime: le32(1700000000)}
+			in.Utxo = genUtxo(lib.NewRng(2850 + uint64(i)))
 			in.Spends = []spendSpec{{Wrap: "p2wsh", Key: 0, Sequence: 0xffffffff, Version: 1, NIn: 1, Amount: 5000, HashType: 1}}
 			run(in, em, fmt.Sprintf("corpus-depositor-%d", i))
 		}
 	}
 
+	// --- Script() call histories on deposits sharing a funding outpoint (hist.go)
+	histCorpus(em)
+	nh := o.Count(27, 400)
+	for i := 0; i < nh; i++ {
+		r := rng.Fork(fmt.Sprintf("hist%d", i))
+		run(input{Hist: genHist(r, i)}, em, fmt.Sprintf("hist-%d", i))
+	}
+
 	// --- random deposits, ~8 spends each
-	n := o.Count(90, 1200)
+	n := o.Count(70, 1200)
 	for i := 0; i < n; i++ {
 		r := rng.Fork(fmt.Sprintf("dep%d", i))
 		in := genInput(r, r.Range(5, 9))
@@ -551,7 +676,12 @@ func main() {
 		}
 		run(in, em, fmt.Sprintf("dep-%d", i))
 	}
-	em.Close("a case is one Deposit (parameters -> Script()) with 5..9 spends of the script behind P2SH / P2WSH "+
+	em.Close("a case is one Deposit (parameters -> Script(), bound to its own funding outpoint; 1 in 12 with a nil Utxo) "+
+		"or a HISTORY of 2..6 Script() calls in one process on deposits that share a funding Utxo (same pointer, equal "+
+		"outpoints behind different pointers, same transaction / other output, nil) and differ in one or several "+
+		"parameters, on a long-lived Deposit mutated between calls, on struct copies, on fresh values and through the "+
+		"deposit sweep assembly; every call's script is judged with that call's parameters and re-read after the last call; "+
+		"each with 4..9 spends of the script behind P2SH / P2WSH "+
 		"(key role, signature fault, hash type, transaction locktime / input sequence around the refund "+
 		"locktime, malformed unlocking data); distinct by the whole case term; non-trivial when the script "+
 		"was produced and the engine accepted at least one and rejected at least one spend", nil)
